@@ -82,7 +82,12 @@ Record st := St {
 Inductive event :=
 | NewRoute (r : route)              (* RTM_NEWROUTE with gateway, oif, prefix *)
 | DelRoute (r : route)              (* RTM_DELROUTE *)
-| NewNeigh (nh mac : N)             (* RTM_NEWNEIGH with NDA_DST, NDA_LLADDR; the kernel table already has it *)
+| NewNeigh (nh mac : N)             (* RTM_NEWNEIGH with NDA_DST, NDA_LLADDR (a resolution; the handler never looks at the
+                                       message's ifindex, so the interface it arrives on plays no role); the kernel table already has it *)
+| NeighNoAddr (nh : N)              (* RTM_NEWNEIGH with NDA_DST but WITHOUT NDA_LLADDR: the kernel's INCOMPLETE / FAILED notification
+                                       after an ARP timeout.  add_unresolved_new_neighbor raises KeyError at
+                                       attr_dict[KEY_LINK_LAYER_ADDRESS] before it touches anything: a no-op *)
+| DelNeigh (nh : N)                 (* RTM_DELNEIGH: _netlink_neighbor_handler only acts on RTM_NEWNEIGH: a no-op *)
 | Noise.                            (* any message _parse_route_entry_msg drops (no gateway / no oif / no prefix) *)
 
 Definition init (ifs : list N) : st := St ifs [] [] [] [] [] [] (Bess [] [] []) [].
@@ -241,11 +246,17 @@ Definition kern_del (s : st) (r : route) : st :=
     St (cfg_ifs s) (ncache s) (unres s) (gatecnt s) (kneigh s) (remove (r_pfx r) (kern s)) (nhif s) (bs s) (pings s)
   else s.
 
+(* after NeighNoAddr / DelNeigh the kernel table has no address for nh (fetch_mac finds nothing or an
+   entry whose lladdr is None); the controller's own state is untouched *)
+Definition no_addr (s : st) (nh : N) : st :=
+  St (cfg_ifs s) (ncache s) (unres s) (gatecnt s) (remove nh (kneigh s)) (kern s) (nhif s) (bs s) (pings s).
+
 Definition step (s : st) (ev : event) : st :=
   match ev with
   | NewRoute r => if managed s (r_if r) then add_new_route_entry (kern_add s r) r else s
   | DelRoute r => if managed s (r_if r) then delete_route_entry (kern_del s r) r else s
   | NewNeigh nh mac => new_neigh s nh mac
+  | NeighNoAddr nh | DelNeigh nh => no_addr s nh
   | Noise => s
   end.
 Definition run (s : st) (h : list event) : st := fold_left step h s.
@@ -261,6 +272,7 @@ Definition wf_ev (s : st) (ev : event) : bool :=
   | NewRoute r => negb (managed s (r_if r)) || is_none (lookup (r_pfx r) (kern s))
   | DelRoute r => negb (managed s (r_if r)) || kern_has s r
   | NewNeigh nh mac => match lookup nh (kneigh s) with None => true | Some m => N.eqb m mac end
+  | NeighNoAddr nh | DelNeigh nh => is_none (lookup nh (kneigh s))    (* a resolved neighbour is not lost: "MAC known" is stable *)
   | Noise => true
   end.
 (* a next hop is reached over one interface *)
